@@ -112,10 +112,17 @@ func (w *World) applyTx(l *Ledger, tx *wire.MsgTx, height uint64) {
 	}
 }
 
-// Ledger returns the reference ledger of the simulator's current best chain (cached by tip).
+// Ledger returns the reference ledger of the simulator's current best chain (cached by tip;
+// a plain extension of the cached tip is applied incrementally).
 func (w *World) Ledger() *Ledger {
-	tip := w.N.Tip().Hash
+	tipB := w.N.Tip()
+	tip := tipB.Hash
 	if w.ledTip == tip && w.led != nil {
+		return w.led
+	}
+	if w.led != nil && tipB.Parent != nil && tipB.Parent.Hash == w.ledTip {
+		w.applyBlock(w.led, tipB)
+		w.ledTip = tip
 		return w.led
 	}
 	w.led = w.ComputeLedger(w.N.Best)
